@@ -474,6 +474,22 @@ macro_rules! flavour_impl {
                         }
                         r
                     }
+                    "cmp_nodes" => {
+                        // [ka, kb, va, vb]: comparison traits of two fresh nodes (replay of a Kani counterexample)
+                        let x: Node<K, N, E> = Node::new(us(&a[1]), Tracked { v: i6(&a[3]), id: 0 });
+                        let y: Node<K, N, E> = Node::new(us(&a[2]), Tracked { v: i6(&a[4]), id: 0 });
+                        let ord = |o: std::cmp::Ordering| o as i8;
+                        json!({"eq": x == y, "ne": x != y, "cmp": ord(x.cmp(&y)), "partial_cmp": x.partial_cmp(&y).map(ord),
+                               "lt": x < y, "le": x <= y, "gt": x > y, "ge": x >= y})
+                    }
+                    "edge_reverse" => {
+                        // [ka, kb, e]: Edge(a, b, e).reverse()
+                        let x: Node<K, N, E> = Node::new(us(&a[1]), Tracked { v: 0, id: 0 });
+                        let y: Node<K, N, E> = Node::new(us(&a[2]), Tracked { v: 0, id: 0 });
+                        let e = Edge(x.clone(), y.clone(), i6(&a[3]));
+                        let r = e.reverse();
+                        json!({"reversed": [*r.source().key(), *r.target().key(), *r.value()], "original": [*e.source().key(), *e.target().key(), *e.value()]})
+                    }
                     "degq" => {
                         let n = &self.nodes[us(&a[1])];
                         sel!($kind, { json!([n.out_degree(), n.in_degree()]) }, { json!([n.degree()]) })
